@@ -333,6 +333,7 @@ def make_strategy(script: dict):
                     ps = [p for q, p in rows] + [float(self.price)]
                     sl, tp = self._exit_rows('long', None, sum(q for q, p in rows), min(ps), max(ps))
                     sl = self._stop_inside_ladder('long', rows, sl)
+                    sl = self._wrong_sided_stop('long', rows, sl)
                     if sl:
                         self.stop_loss = sl
                     if tp:
@@ -351,6 +352,7 @@ def make_strategy(script: dict):
                     ps = [p for q, p in rows] + [float(self.price)]
                     sl, tp = self._exit_rows('short', None, sum(q for q, p in rows), min(ps), max(ps))
                     sl = self._stop_inside_ladder('short', rows, sl)
+                    sl = self._wrong_sided_stop('short', rows, sl)
                     if sl:
                         self.stop_loss = sl
                     if tp:
@@ -378,6 +380,20 @@ def make_strategy(script: dict):
             _TR.emit('note', what='stop_inside_ladder')
             return [(sum(q for q, p in rows), mid)]
 
+        def _wrong_sided_stop(self, side, rows, sl):
+            """option wrong_side_sl_in_go: the stop declared with a single market entry lies on the WRONG side of the entry price
+            (jesse replaces such a row by a market order when the position opens); on_open_position declares a proper stop"""
+            self._wrong_sided = False
+            p_ = self.s.get('wrong_side_sl_in_go')
+            if not (p_ and sl and len(rows) == 1 and self.rnd('wss') < p_ and self.exchange_type != 'spot'):
+                return sl
+            price = float(self.price)
+            if abs(rows[0][1] / price - 1) > 1e-12:
+                return sl
+            self._wrong_sided = True
+            TR.emit('note', what='wrong_sided_initial_stop', symbol=self.symbol)
+            return [(rows[0][0], self._px(price * (1.003 if side == 'long' else 0.997)))]
+
         def _side(self):
             return 'long' if self.is_long else 'short'
 
@@ -401,6 +417,12 @@ def make_strategy(script: dict):
                         self.stop_loss = sl
                     if tp:
                         self.take_profit = tp
+                elif getattr(self, '_wrong_sided', False):
+                    # the stop declared with the entry was on the wrong side: declare a proper one now
+                    sl, _tp = self._exit_rows(self._side(), self.position.entry_price, abs(self.position.qty))
+                    if sl:
+                        self.stop_loss = sl
+                    self._wrong_sided = False
                 if self.s.get('on_open_add') and self.exchange_type != 'spot' and not (
                         self.s.get('p_open_liquidate') and self.position.is_close):
                     # scale in at the market from inside the fill callback (re-declared entry at the current price)
